@@ -51,8 +51,86 @@ CORPUS = {"shift": [[15, 10, 1, 10, 20], [0, 10, 1, 0, 10], [20, 5, 1, 10, 20], 
           "copied": [[15, 0, 10, 1, 10, 20, 1, 0, 10], [6, 2, 16, 2, 4, 10, 16, 24, 2, 0, 8, 12, 20]]}
 
 
+def gen_shared(rng, size):
+    """separated shared blocks inside [0,size] (stop_i < start_{i+1}), as smpi_shared_malloc_partial requires"""
+    n = rng.randint(0, 3)
+    if size < 2 * n + 1:
+        n = 0
+    pts = sorted(rng.sample(range(0, size + 1), 2 * n))
+    bl = []
+    for i in range(0, 2 * n, 2):
+        b, e = pts[i], pts[i + 1]
+        if bl and b <= bl[-1][1]:
+            b = bl[-1][1] + 1
+        if b < e:
+            bl.append((b, e))
+    return bl
+
+
+def gen_e2e(rng):
+    big = rng.random() < 0.4
+    ssize = rng.randint(3 * 4096, 4 * 4096 + 100) if big else rng.randint(8, 200)
+    dsize = rng.randint(3 * 4096, 4 * 4096 + 100) if big else rng.randint(8, 200)
+    ss, ds = gen_shared(rng, ssize), gen_shared(rng, dsize)
+    if big and rng.random() < 0.7:      # page-aligned shared blocks are really mapped shared
+        ss = [(4096, 2 * 4096)] if rng.random() < 0.5 else [(0, 4096), (2 * 4096, 3 * 4096)]
+    size = rng.randint(0, min(ssize, dsize))
+    # aim the message start at the boundaries of the private/shared blocks
+    cs = [0] + [x + d for be in ss for x in be for d in (-1, 0, 1)]
+    soff = min(max(0, rng.choice(cs)), ssize - size) if rng.random() < 0.6 else rng.randint(0, ssize - size)
+    cd = [0] + [x + d for be in ds for x in be for d in (-1, 0, 1)]
+    doff = min(max(0, rng.choice(cd)), dsize - size) if rng.random() < 0.6 else rng.randint(0, dsize - size)
+    mode = rng.randint(0, 2)
+    return mode, [soff, doff, size, ssize] + flat(ss) + [dsize] + flat(ds)
+
+
+E2E_CORPUS = [(0, [15, 0, 10, 40, 2, 0, 10, 20, 40, 40, 1, 30, 40]),      # private [10,20) starts before the message
+              (1, [5, 5, 20, 64, 1, 0, 3, 64, 1, 60, 64]),
+              (2, [4090, 10, 100, 12288, 1, 4096, 8192, 300, 0])]
+E2E_CFGS = [("rendezvous", ["smpi/send-is-detached-thresh:0", "smpi/async-small-thresh:0"]),
+            ("detached", ["smpi/send-is-detached-thresh:65536", "smpi/async-small-thresh:0"]),
+            ("eager", ["smpi/send-is-detached-thresh:100000", "smpi/async-small-thresh:100000"])]
+
+
+def e2e(ctx, dist):
+    import json, os, tempfile
+    prog = fw.build_smpi_prog("smpi_c35", "c")
+    n = ctx.n(120, 3000)
+    cases = list(E2E_CORPUS) + [gen_e2e(ctx.rng) for _ in range(n)]
+    if ctx.replay:
+        rp = json.load(open(ctx.replay))["case"]
+        if rp["mode"] != "e2e":
+            return
+        cases = [(rp["input"][0], rp["input"][1:])]
+    model = fw.run_model("c35", "run_c35_e2e", [c for _, c in cases])
+    os.makedirs(os.path.join(fw.B, "run"), exist_ok=True)
+    path = os.path.join(fw.B, "run", "c35_e2e_cases.txt")
+    with open(path, "w") as f:
+        for m, c in cases:
+            f.write(" ".join(map(str, [m] + c)) + "\n")
+    cfgs = E2E_CFGS if not ctx.replay else [x for x in E2E_CFGS if x[0] == rp.get("cfg", x[0])]
+    for cname, cfg in cfgs:
+        rc, so, se = fw.smpirun(prog, 2, [path], cfg=cfg, timeout=1200)
+        lines = [l for l in so.split("\n") if l and l[0].isdigit()]
+        if rc in (126, 127):
+            raise fw.BuildError("smpirun could not start: " + (se or so)[-300:])
+        if rc != 0 or len(lines) != len(cases):
+            ctx.fail("e2e-run-" + cname, "smpi_c35 under %s ended rc=%d with %d/%d answers: %s" % (cname, rc, len(lines), len(cases), (se or so)[-400:]),
+                     {"mode": "e2e", "cfg": cname, "input": None})
+            continue
+        for (m, c), exp, l in zip(cases, model, lines):
+            got = [int(t) for t in l.split()][1:]
+            need, have = bytes_of(exp, 0), bytes_of(got, 0)
+            dist["e2e_" + cname] = dist.get("e2e_" + cname, 0) + 1
+            ctx.case(("e2e", cname, m, c), len(exp) > 0, {"mode": "e2e", "cfg": cname, "input": [m] + c, "must_arrive": exp, "arrived": got} if len(exp) > 0 and dist["e2e_" + cname] < 3 else None)
+            if not need <= have:
+                lost = sorted(need - have)
+                ctx.fail("e2e-private-bytes-lost", "%s send mode %d, case %s: message bytes %s.. (%d bytes) are private on both sides but did not arrive; must arrive %s, arrived %s"
+                         % (cname, m, c, lost[:4], len(lost), exp, got), {"mode": "e2e", "cfg": cname, "input": [m] + c, "expected": exp, "arrived": got})
+
+
 def run(ctx):
-    ctx.simgrid(["simgrid"])
+    ctx.simgrid(["simgrid", "smpimain"])
     ctx.prove()
     drv = fw.build_harness("c35_drv")
     n = ctx.n(600, 20000)
@@ -91,6 +169,7 @@ def run(ctx):
                          {"mode": mode, "input": c, "impl": i, "expected": m})
             else:
                 ctx.notes.append("harmless difference in block boundaries on %s %s" % (mode, c))
+    e2e(ctx, dist)
     ctx.cov["input_distribution"] = dist
     ctx.assumptions += ["size_t is 64 bits; inputs to shift are sorted disjoint blocks as built by smpi_shared_malloc_partial",
                         "the memcpy loops of memcpy_private are not modelled (one memcpy per returned block)"]
